@@ -153,6 +153,16 @@ def driver_layer(ctx, pid, grammars=None, inputs=None, exh=None, extra=(), tag="
         for pcase in stats["panics"][:3]:
             ctx.failing_input("driver-panic:" + pcase[:200], "the real driver panics on generated tables", {"case": pcase})
     n_concrete = 0
+    if pid == "C04":
+        # property-level rule that needs no model: a parser without error recovery never returns ExtraToken
+        imps_all = open(os.path.join(out, "lr.impl")).read().split("\n")
+        for i, (req, imp) in enumerate(zip(reqs, imps_all)):
+            if req.startswith("run ") and imp.startswith("err ET(") and not tables_recovery(reqs, i) and n_concrete < 2:
+                cx = ctx_for(ctxs, i)
+                if cx and "corrupt" not in cx[1]:
+                    n_concrete += 1
+                    ctx.failing_input(f"extra-token:{cx[1]}:{sh(cx[3])}", f"real driver returns ExtraToken on `{req}` (algorithm {cx[1]})",
+                                      {"grammar": cx[3], "algorithm": cx[1], "request": req, "implementation": imp})
     for d in dis:
         i = d["index"]
         req = d["req"]
@@ -185,7 +195,7 @@ def driver_layer(ctx, pid, grammars=None, inputs=None, exh=None, extra=(), tag="
 def compiled_layer(ctx, pid, grammars=None, inputs=None, extra=(), tag="lrcompiled"):
     """layer 4: rustc-compiled generated parsers, both code generators"""
     (exe,) = ctx.build_harness(["lrcompiled"])
-    n = grammars or ctx.vol(25, 250)
+    n = grammars or ctx.vol(32, 250)
     k = inputs or ctx.vol(25, 60)
     out = os.path.join(ctx.scratch, tag)
     rc, so, se = ctx.run_harness(exe, ["--seed", ctx.seed + 1000, "--n", n, "--out", out, f"inputs={k}"] + list(extra), timeout=3000)
